@@ -690,13 +690,21 @@ GstrsVerdict(ev) ==
 (***************************************************************************)
 MatchVerdict(ev) ==
   LET n == ev.n  cplx == IsCplx(ev.ty)
-      dl == \A t \in 1..Len(ev.A0) : DLTok(ev.A0[t][3], cplx) /\ MagExp(ev.A0[t][3], cplx) # Z
+      \* explicitly stored zeros are not nonzeros: they may not be matched and do not constrain the scaling
+      NZ == {t \in 1..Len(ev.A0) : ~TokIsZero(ev.A0[t][3], cplx)}
+      dl == \A t \in NZ : DLTok(ev.A0[t][3], cplx) /\ MagExp(ev.A0[t][3], cplx) # Z
             /\ (cplx => (ZeroTok(ev.A0[t][3][1]) \/ ZeroTok(ev.A0[t][3][2])))          \* modulus of a pure real / imaginary entry is a power of two
-      W == [ij \in {<<ev.A0[t][1], ev.A0[t][2]>> : t \in 1..Len(ev.A0)} |->
-              MagExp(ev.A0[CHOOSE t \in 1..Len(ev.A0) : ev.A0[t][1] = ij[1] /\ ev.A0[t][2] = ij[2]][3], cplx)]
+      W == [ij \in {<<ev.A0[t][1], ev.A0[t][2]>> : t \in NZ} |->
+              MagExp(ev.A0[CHOOSE t \in NZ : ev.A0[t][1] = ij[1] /\ ev.A0[t][2] = ij[2]][3], cplx)]
       small == n <= 5                    \* enumeration of all matchings; above that Hall's condition and the dual certificate
       lim == n <= 8
-      sing == IF small THEN StructSingular(W, n) ELSE HallViolated(W, n)
+      \* structural singularity is a matter of the stored pattern (explicit zeros included); when the stored pattern has a
+      \* perfect matching but the nonzeros alone have none, nothing is demanded (no matching with a nonzero diagonal exists)
+      Wall == [ij \in {<<ev.A0[t][1], ev.A0[t][2]>> : t \in 1..Len(ev.A0)} |-> 0]
+      singS == IF small THEN StructSingular(Wall, n) ELSE HallViolated(Wall, n)
+      singN == IF small THEN StructSingular(W, n) ELSE HallViolated(W, n)
+      ambiguous == ~singS /\ singN
+      sing == singS
       p == [i \in Ix0(n) |-> ev.perm[i + 1]]
       pok == IsMatching(p, W, n)
       u == [i \in Ix0(n) |-> ev.u_log2[i + 1]]
@@ -704,7 +712,7 @@ MatchVerdict(ev) ==
       integral == ev.dual_dev_micro <= 1000
       certified == ev.job = 5 /\ integral /\ DualFeasible(u, v, p, W, n)       \* weak duality (MC_Match!DualCertifies)
       optimal == IF small THEN Value(p, W, n) = MaxValue(W, n) ELSE (certified \/ Value(p, W, n) = MaxValueRec(W, n))
-      bad == IF ~dl \/ ~lim THEN {} ELSE
+      bad == IF ~dl \/ ~lim \/ ambiguous THEN {} ELSE
              (IF sing /\ ev.ret = 0 THEN {"C17.structural_singularity_not_reported"} ELSE {})
              \cup (IF ~sing /\ ev.ret # 0 THEN {"C17.nonsingular_reported_singular"} ELSE {})
              \cup (IF ~sing /\ ev.ret = 0 /\ ~pok THEN {"C17.not_a_matching_with_nonzero_diagonal"} ELSE {})
